@@ -274,6 +274,59 @@ def threads_and_fork(ctx):
         for i in coq.parse_nat_list(r["violations"])[:2]:
             ctx.violation("C02: a thread's stream differs from its own history under interleaved hooks",
                           {"mode": "threads", "cfg": cfg, "script": lines, "thread": i + 1}, True)
+    # a thread that ends in pthread_exit() with calls still open (libmcount/wrap.c records and drops them): at depths around
+    # --max-stack in particular
+    for it in range(ctx.n(10, 120)):
+        shape = rng.choice(["pg", "cyg"])
+        M = rng.choice([3, 4, 6, 9, None])
+        cfg = {"shape": shape, "trig": {}}
+        if M is not None:
+            cfg["max_stack"] = M
+        if rng.random() < 0.2:
+            cfg["threshold"] = 5
+        fo = F.assign_times(rng, F.gen_shape(rng, 6, rng.choice([0, 3, 8]), min(3, (M or 4) - 1)), t0=1000, durs=(1, 4, 6, 10, 50))
+        evs = F.flatten(fo)
+        t = max([e[2] for e in evs] + [1000]) + 5
+        d_open = rng.choice([1, 2, 3] + ([M - 1, M, M, M + 1, M + 2] if M else [5, 8]))
+        for lvl in range(d_open):
+            evs.append(("E", rng.randrange(6), t))
+            t += 3
+            if rng.random() < 0.3:           # a completed leaf call inside the open one
+                k = rng.randrange(6)
+                evs.append(("E", k, t))
+                evs.append(("X", k, t + 2))
+                t += 5
+        lines = ["AUTOSTATE 0", "T 1"]
+        for e in evs:
+            if shape == "cyg":
+                lines.append("CE %d %d" % (e[1], e[2]) if e[0] == "E" else "CX %d %d" % (e[1], e[2]))
+            else:
+                lines.append("E %d %d" % (e[1], e[2]) if e[0] == "E" else "X %d" % e[2])
+        lines += ["T 1", "TPEXIT"]
+        try:
+            out, err = h.run(lines, mch.cfg_env(cfg), timeout=120)
+        except RuntimeError as ex:
+            ctx.violation("C02: a thread ending in pthread_exit() with %d open calls (--max-stack %s) crashes the traced process"
+                          % (d_open, M), {"mode": "pexit", "cfg": cfg, "script": lines, "error": str(ex)[-400:]}, True)
+            continue
+        recs = [(a, b, c, d, mch.addr_canon(e)) for (a, b, m, c, d, e, p) in mch.parse_records(out)]
+        plain_ok = (not cfg.get("threshold")) and (M is None or d_open + height(fo) <= M) and d_open <= (M or 1024)
+        defs = "Definition chk := ok_pexit %s %s %s.\n" % (F.coq_cfg(cfg, mch.SIZES), F.coq_events(evs), mcgen.coq_recs(recs))
+        defs += "Definition chk2 := %s.\n" % (("ok_pexit_plain %s %s" % (F.coq_events(evs), mcgen.coq_recs(recs)))
+                                               if plain_ok and M is None else "true")
+        r = coq.run_cases(ctx, "c02_pexit%d" % it, mcgen.PRE, defs, [("model", "chk"), ("plain", "chk2")])
+        ctx.case(key=("pexit", repr(cfg), tuple(lines)), tags=["pthread_exit:open=%d" % d_open, "pthread_exit:max_stack=%s" % M,
+                                                               "shape:" + shape], size=len(lines))
+        if r is None:
+            continue
+        if r["plain"] != "true":
+            ctx.violation("C02: the stream of a thread that ended in pthread_exit() is not its call history (an ENTRY for every "
+                          "call entered, an EXIT for every call left)",
+                          {"mode": "pexit", "cfg": cfg, "script": lines, "records": recs}, True)
+        elif r["model"] != "true":
+            ctx.violation("C02: model and libmcount disagree on the records of a thread ending in pthread_exit() with %d open "
+                          "calls (--max-stack %s): an open call within --max-stack must leave its ENTRY" % (d_open, M),
+                          {"mode": "pexit", "cfg": cfg, "script": lines, "records": recs}, True)
     # forked child
     for it in range(ctx.n(6, 50)):
         shape = rng.choice(["pg", "cyg"])
